@@ -234,6 +234,16 @@ def check(conds, timeout_ms=3000, want_model=False, external=False):
         for name, v in cv.vars.items():
             val = m.eval(v, model_completion=True)
             model[name] = _z3num(val)
+        fnp = []
+        for nid, ze in cv.cache.items():
+            nd = core.CTX.nodes[nid]
+            if nd.op == 'fn':
+                try:
+                    args = [_z3num(m.eval(cv.cache[x.id], model_completion=True)) for x in nd.args]
+                    fnp.append((nd.val, args, _z3num(m.eval(ze, model_completion=True))))
+                except Exception:
+                    pass
+        info['fn_points'] = fnp
     if status == 'unknown' and external:
         smt2 = s.to_smt2()
         for tool, args in (('cvc5', ['/usr/bin/cvc5', '--nl-cov', f'--tlimit={timeout_ms * 4}']),
